@@ -357,7 +357,7 @@ impl Check for C13 {
     }
     fn cases(&self, tier: Tier) -> u64 {
         match tier {
-            Tier::Quick => 400,
+            Tier::Quick => 650,
             Tier::Thorough => 6000,
         }
     }
@@ -375,6 +375,8 @@ impl Check for C13 {
             gp.n_files = 2 + (i as usize / 4) % 2;
             gp.n_events = 6;
             gp.n_cmds = gp.n_cmds.max(5);
+            gp.local_heavy = true;
+            gp.tuple_events = false;
         }
         let mut mr = r.split("model");
         let mut model = gen_model(&mut mr, &gp);
